@@ -327,6 +327,44 @@ func (bc *boundsCtx) term(v ssa.Value) lterm {
 			bc.z.addLT(me, bc.lenOf(x.Call.Args[0]))
 			return me
 		}
+		// a module helper all of whose returns are `u % param` with u unsigned: the result lies in [0, argument)
+		if g := calleeFn(x.Common()); g != nil && isModFn(g) && g.Blocks != nil && intBits(x.Type()) > 0 {
+			pk := -1
+			okAll, nret := true, 0
+			eachInstr(g, func(_ *ssa.BasicBlock, _ int, in ssa.Instruction) {
+				r, ok := in.(*ssa.Return)
+				if !ok || len(r.Results) != 1 {
+					return
+				}
+				nret++
+				bo, ok := stripNoopConv(r.Results[0]).(*ssa.BinOp)
+				if !ok || bo.Op != token.REM || !isUnsigned(bo.X.Type()) {
+					okAll = false
+					return
+				}
+				prm, ok := stripConv(bo.Y).(*ssa.Parameter)
+				if !ok {
+					okAll = false
+					return
+				}
+				k := paramIndex(g, prm)
+				if pk >= 0 && pk != k {
+					okAll = false
+				}
+				pk = k
+			})
+			if okAll && nret > 0 && pk >= 0 && pk < len(x.Call.Args) {
+				me := lterm{bc.name(v), 0}
+				a := bc.term(x.Call.Args[pk])
+				bc.z.addLE(lconst(0), me)
+				bc.deferred = append(bc.deferred, func(z *Zone, _ *ssa.BasicBlock) {
+					if z.entLE(lconst(1), a) {
+						z.addLT(me, a)
+					}
+				})
+				return me
+			}
+		}
 		if isCallTo(x, "(time.Time).UnixNano", "(time.Time).Unix") {
 			me := lterm{bc.name(v), 0}
 			bc.z.addLE(lconst(0), me)
